@@ -175,12 +175,12 @@ def plan(prop, tier, seed):
         if not q:
             add(['tb2', 'hyb2', 'tb_ev'], K=2, D=1, lazies=(True,))
     # generated families (vk.topo.generated / generated_multi): every two-simulator topology, and every pair of parallel
-    # connections with different delays.  thorough: each property explores a rotating eighth; quick: a rotating 1/48 slice.
+    # connections with different delays.  thorough: each property explores a rotating twelfth; quick: a rotating 1/48 slice.
     # Each selected topology is explored completely (the seed rotates coverage, it does not sample behaviours).
     gen = T.generated() + T.generated_multi()
     if q:
         gen = [t for t in gen if 'weak' not in t['tags']]     # same-time loops explode; curated ones and the thorough tier cover them
-    mod = 8 if not q else 48
+    mod = 12 if not q else 48
     off = (int(prop[1:]) * 7 + seed) % mod
     for i, t in enumerate(gen):
         if i % mod != off:
@@ -195,11 +195,11 @@ def plan(prop, tier, seed):
                 continue     # quick: these loops with one asynchronous simulator at a time; both asynchronous in the thorough tier
             jobs.append(job(prop, t, c, budget_s=(300 if not q else 90), split_depth=(16 if heavy else None)))
     if not q:
-        # generated three-simulator family: a rotating 1/32 per property, transport-mode extremes
+        # generated three-simulator family: a rotating 1/48 per property, transport-mode extremes
         g3 = T.generated3()
-        off3 = (int(prop[1:]) * 5 + seed) % 32
+        off3 = (int(prop[1:]) * 5 + seed) % 48
         for i, t in enumerate(g3):
-            if i % 32 != off3:
+            if i % 48 != off3:
                 continue
             lz = (True,) if prop == 'C10' else (True, False)
             for c in cfgs(t, tier, K=2, masks='extremes', lazies=lz):
